@@ -55,19 +55,29 @@ def fast_scan(path):
 
 
 def trace_violations(ctx, events, rejects):
+    bad, found = [], 0
     for r in rejects:
         ev = events[r["l"] - 1]
         why, _, at = r["why"].partition("@")
         i = int(at) if at else 1
         st = ev["steps"][i - 1]
         if why == "bad-event":
-            raise vlib.Inconclusive("trace event %d step %d is outside the specified domain (generator problem): %s"
-                                    % (r["l"], i, json.dumps({k: v for k, v in st.items() if k not in ("obs", "ret")})))
+            # a consensus handed over by the library's own read pairing that shows the pool's poison marker was given a
+            # slice somebody else had already recycled: real-code behaviour, not a generator problem
+            if st["op"] == "new" and ev["kind"] == "paired" and i == 1 and "!" in st["v"]["seq"]:
+                why = "poisoned-consensus"
+            else:
+                bad.append("trace event %d step %d is outside the specified domain (generator problem): %s"
+                           % (r["l"], i, json.dumps({k: v for k, v in st.items() if k not in ("obs", "ret")})[:1500]))
+                continue
+        found += 1
         ops = "; ".join("%s(o=%s r=%s)" % (s["op"], s["o"], s["r"]) for s in ev["steps"][:i])
         ctx.violation("C07.trace.%s.%s" % (why, st["op"]), "trace/%s" % ev["kind"],
                       "step %d of a recorded %s history rejected by SeqHeapTrace (%s): %s%s" %
                       (i, ev["kind"], why, ops[-220:], (" :: " + st["problem"]) if st.get("problem") else ""),
                       {"n": ev["n"], "kind": ev["kind"], "steps": ev["steps"][:i]})
+    if bad and not found:
+        raise vlib.Inconclusive(bad[0])
 
 
 def trace_phase(ctx, thorough):
